@@ -6,7 +6,7 @@
    original, one fiber and at any depth; merge1 of ANY two-level image whose concatenation is sorted is the
    concatenation;  4. lookups: the payload the runtime model finds at (.., bucket, c, ..) in the split trie is the one
    at (.., c, ..) in the original, nothing at any other upper coordinate, and NestPartProofs.den_split_at read on the
-   tries of the runtime model.
+   tries of the runtime model;  5. mergeRanks at depth d of any mergeable trie; a two-level stack of splits.
    Same layout as NestOccProofs section 7 (bounds_split / equal_split are split_nonuniform / split_equal). *)
 From Coq Require Import ZArith List Bool Lia String Sorted.
 Require TV.Model.Rt TV.Proofs.SplitArith TV.Proofs.RtLaws.
@@ -418,6 +418,57 @@ Proof.
   rewrite <- !den_rt. apply den_split_at; assumption.
 Qed.
 
+(* ---------- 5. mergeRanks at depth d, two-level stacks ---------- *)
+Definition merge_top (t : trie) : trie := match t with Node parts => Node (merge_node parts) | Leaf v => Leaf v end.
+Definition mergeable (t : trie) : Prop :=
+  match t with
+  | Node parts => Forall (fun pt : coord * trie => exists l', snd pt = Node l') parts /\
+                  StronglySorted Z.lt (keys (merge_node parts))
+  | Leaf _ => False
+  end.
+
+(* 3c at depth d *)
+Theorem merge_at_is_tmap_merge1 d t : holds_at d mergeable t ->
+  Rt.tmap_depth d Rt.merge1 (to_rt t) = Some (to_rt (lift_at d merge_top t)).
+Proof.
+  apply (tmap_depth_lift Rt.merge1 merge_top mergeable). intros [v|parts] H; [destruct H|].
+  destruct H as [H1 H2]. apply merge_node_is_merge1; assumption.
+Qed.
+
+Lemma keys_filter_sorted (f : coord * trie -> bool) l : StronglySorted Z.lt (keys l) -> StronglySorted Z.lt (keys (filter f l)).
+Proof.
+  unfold keys. induction l as [|ct l IH]; intros H; [constructor|]. cbn [map] in H. apply StronglySorted_inv in H as [H F].
+  cbn [filter]. destruct (f ct); [|apply IH; exact H]. cbn [map]. constructor; [apply IH; exact H|].
+  rewrite Forall_forall in *. intros x Hx. apply in_map_iff in Hx as [ct' [<- Hx]]. apply filter_In in Hx as [Hx _].
+  apply F. apply (in_map fst) in Hx. exact Hx.
+Qed.
+
+Lemma fits_filter (f : coord * trie -> bool) l : fits l -> fits (filter f l).
+Proof.
+  intros [H1 H2]. split; [apply keys_filter_sorted; exact H1|]. unfold keys in *. rewrite Forall_forall in *.
+  intros x Hx. apply in_map_iff in Hx as [ct [<- Hx]]. apply filter_In in Hx as [Hx _]. apply H2. apply (in_map fst) in Hx. exact Hx.
+Qed.
+
+(* the lower fibers of a split fit again: a second split (of the lower rank, now at depth d + 1) is covered *)
+Lemma fits_at_split_at : forall d s t, fits_at d t -> fits_at (S d) (split_at d s t).
+Proof.
+  induction d as [|d IH]; intros s [v|l] H; cbn [fits_at] in H; try contradiction.
+  - cbn [split_at fits_at]. unfold split_node. rewrite Forall_forall. intros pt Hpt. apply in_map_iff in Hpt as [p [<- _]].
+    cbn [snd fits_at]. apply fits_filter. exact H.
+  - cbn [split_at]. change (Forall (fun ct => fits_at (S d) (snd ct)) (map (fun ct => (fst ct, split_at d s (snd ct))) l)).
+    rewrite Forall_forall in *. intros x Hx. apply in_map_iff in Hx as [ct [<- Hx]]. cbn [snd]. apply IH, H, Hx.
+Qed.
+
+(* a two-level stack on one rank (the trie side of NestPartProofs.partitioned_nest_sound_2): splitUniform(s2, depth=d)
+   then splitUniform(s1, depth=d+1) *)
+Theorem split_at_2_is_tmap_split_uniform d s2 s1 t : 0 < s2 -> 0 < s1 -> fits_at d t ->
+  exists T1, Rt.tmap_depth d (Rt.split_uniform s2 0 0) (to_rt t) = Some T1 /\
+    Rt.tmap_depth (S d) (Rt.split_uniform s1 0 0) T1 = Some (to_rt (split_at (S d) s1 (split_at d s2 t))).
+Proof.
+  intros H2 H1 Hf. eexists. split; [apply split_at_is_tmap_split_uniform; assumption|].
+  apply split_at_is_tmap_split_uniform; [exact H1|apply fits_at_split_at; exact Hf].
+Qed.
+
 (* ---------- examples ---------- *)
 Section Examples.
 Local Open Scope string_scope.
@@ -498,5 +549,29 @@ Proof.
     repeat constructor; cbn; intuition discriminate.
   - etransitivity; [apply (den_split_uniform 1 ["M"; "K"] ex_mat (p 3 10) "K" "K1" "K0" 3 T' eq_refl ex_mat_fits eq_refl); [|exact E]|vm_compute; reflexivity].
     repeat constructor; cbn; intuition discriminate.
+Qed.
+
+Example merge_at_is_tmap_merge1_ex :
+  Rt.tmap_depth 1 Rt.merge1 (to_rt (Node [(4, Node [(2, Node [(0, Leaf 1); (5, Leaf 2)]); (7, Node [(6, Leaf 3)])]); (5, Node [])]))
+  = Some (to_rt (Node [(4, Node [(0, Leaf 1); (5, Leaf 2); (6, Leaf 3)]); (5, Node [])])).
+Proof.
+  rewrite merge_at_is_tmap_merge1; [vm_compute; reflexivity|]. cbn [holds_at].
+  constructor; [|constructor; [|constructor]]; cbn [snd mergeable].
+  - split; [|apply sortedb_sound; vm_compute; reflexivity].
+    constructor; [eexists; reflexivity|]. constructor; [eexists; reflexivity|constructor].
+  - split; constructor.
+Qed.
+
+
+Example split_at_2_is_tmap_split_uniform_ex :
+  exists T1, Rt.tmap_depth 1 (Rt.split_uniform 6 0 0) (to_rt ex_mat) = Some T1 /\
+    Rt.tmap_depth 2 (Rt.split_uniform 3 0 0) T1 =
+             Some (to_rt (Node [(0, Node [(0, Node [(0, Node [(0, Leaf 1); (1, Leaf 2)]); (3, Node [(4, Leaf 3); (5, Leaf 4)])]);
+                                          (6, Node [(9, Node [(9, Leaf 5); (10, Leaf 6)])]);
+                                          (18, Node [(21, Node [(23, Leaf 7)])])]);
+                                (3, Node [(0, Node [(0, Node [(2, Leaf 8)])]); (6, Node [(6, Node [(7, Leaf 9)])])])])).
+Proof.
+  destruct (split_at_2_is_tmap_split_uniform 1 6 3 ex_mat eq_refl eq_refl ex_mat_fits) as [T1 [E1 E2]].
+  exists T1. split; [exact E1|]. rewrite E2. vm_compute. reflexivity.
 Qed.
 End Examples.
